@@ -1,6 +1,9 @@
 use crate::parser::error::Error;
 use crate::parser::params::Params;
 use proc_macro_error::{abort, emit_error};
+#[cfg(enum_tools_verif)]
+use crate::verif_seam::HashMap;
+#[cfg(not(enum_tools_verif))]
 use std::collections::HashMap;
 use syn::punctuated::Punctuated;
 use syn::spanned::Spanned;
